@@ -210,7 +210,7 @@ def marshalling_python(ctx, rid, fn):
                      "neighbors[%s], J[%s] appended and num_neighbors[%s] counted together" % (idx, idx, idx) if ok else
                      "`%s` is not paired in its block with the appends to neighbors/J and the count of num_neighbors for "
                      "index %s: the C kernel walks num_neighbors[i] entries of both arrays" % (src(c), idx))
-        fl = {rows: [v for s_, v in assignments_to(fn.node, flat) if isinstance(v, ast.AST) and 'chain(' in src(v)]
+        fl = {rows: [v for s_, v in assignments_to(fn.node, flat) if isinstance(v, ast.AST) and ('chain(' in src(v) or 'chain.from_iterable(' in src(v))]
               for rows, flat in ((JJ, JJ_flat), (NB, NB_flat))}
         ok = all(fl[nm] and src(fl[nm][0]) in ('list(chain(*%s))' % nm, 'list(chain.from_iterable(%s))' % nm) for nm in fl)
         ctx.inst(rid, fn, 'flattening', ok, "J and neighbors are flattened row by row in the same order" if ok else
@@ -435,18 +435,32 @@ def package_rules(ctx, where, host, pst, pvl, pof, prm):
     adds = [c for c in calls_in(host.node, 'add_state')]
     lp0 = [n for n in walk_no_nested(strip_docstring(host.node.body)) if isinstance(n, ast.For)
            and any(c in list(ast.walk(n)) for c in adds)]
-    iv = src(lp0[0].target) if lp0 else 'i'
+    iv, row = 'i', None
+    okn = False
+    if lp0:
+        lp = lp0[0]
+        it = lp.iter
+        if src(it) in ('range(len(%s))' % pst, 'range(len(%s))' % pvl):
+            iv, okn = src(lp.target), True
+        elif isinstance(it, ast.Call) and is_name(it.func, 'enumerate') and len(it.args) == 1 and src(it.args[0]) in (pst, pvl) \
+                and isinstance(lp.target, ast.Tuple) and len(lp.target.elts) == 2:
+            iv, okn = src(lp.target.elts[0]), True
+            if src(it.args[0]) == pst:
+                row = src(lp.target.elts[1])
+    state_row = ['%s[%s]' % (pst, iv)] + ([row] if row else [])
     ok = False
-    if len(adds) == 1 and len(adds[0].args) == 3:
+    flag = None
+    if len(adds) == 1 and len(adds[0].args) in (2, 3):
+        flag = adds[0].args[2] if len(adds[0].args) == 3 else kwarg(adds[0], 'spin')
         val = src(expand_names(host.node, adds[0].args[1]))
-        ok = val in ('%s[%s] + %s' % (pvl, iv, pof), '%s + %s[%s]' % (pof, pvl, iv)) and is_const(adds[0].args[2], True)
+        ok = val in ('%s[%s] + %s' % (pvl, iv, pof), '%s + %s[%s]' % (pof, pvl, iv)) and flag is not None and is_const(flag, True)
     ctx.inst('R11.2', where, adds[0] if adds else 'add_state', ok, "value = C energy + offset, spin flag True" if ok else
              "the packaging does not add (state, %s[i] + %s, True)" % (pvl, pof))
-    ctx.inst('R11.8', where, adds[0] if adds else 'add_state', ok and is_const(adds[0].args[2], True), "spin flag is the literal True")
-    okn = bool(lp0) and src(lp0[0].iter) in ('range(len(%s))' % pst, 'range(len(%s))' % pvl)
+    ctx.inst('R11.8', where, adds[0] if adds else 'add_state', ok and flag is not None and is_const(flag, True), "spin flag is the literal True")
     ctx.inst('R11.2', where, lp0[0] if lp0 else 'loop', okn, "one result per returned state" if okn else "not every returned state becomes a result")
     st = [x for l in lp0 for x in ast.walk(l) if isinstance(x, ast.DictComp)]
-    oks = bool(st) and isinstance(st[0].key, ast.Subscript) and src(st[0].key.value) == prm and 'enumerate(%s[%s])' % (pst, iv) in src(st[0])
+    oks = bool(st) and isinstance(st[0].key, ast.Subscript) and src(st[0].key.value) == prm and \
+        any('enumerate(%s)' % r in src(st[0]) for r in state_row)
     ctx.inst('R11.2', where, 'state relabelling', oks, "each position k is relabelled through reverse_mapping" if oks else
              "states are not relabelled position by position through the reverse mapping")
 
